@@ -20,6 +20,17 @@ def _call(task):
 
 def run(ctx):
     import fam.timingcheck  # noqa: F401 (registers the reconverge design)
+    import contracts.analysis   # noqa: F401
+    from pyvc.contract import REGISTRY
+    from pyvc import run as prun
+    cs = [c for c in REGISTRY.values() if 'C17' in c.props]
+    prun.run_contracts(ctx, cs, 'contracts.analysis')
+    ctx.assume('timing-map contract: delays are mathematical integers (caller-supplied table; the float default '
+               'table is covered by the bounded family); the timing map is read as a total map (KeyError on an '
+               'argument left untimed by an end-of-block net is outside the contract); netlist well-formedness '
+               '(one driver, producers first) as decided under C10; the table gives register nets a negative '
+               'delay; the step from the longest-path recurrence to "maximum over all chains" is the standard '
+               'induction over the dependency order and is not mechanised')
     fam = designs.family(ctx.tier, ctx.seed) + [{'name': 'reconverge', 'params': {'w': 2}},
                                                 {'name': 'reconverge', 'params': {'w': 3}},
                                                 {'name': 'two_mems', 'params': {'aw': 2}},
@@ -68,5 +79,7 @@ def run(ctx):
                      'enumeration (memory write->read, register loops); fanout == argument positions; '
                      'distance sums', sample=tasks[4])
     ctx.assume('floats compared with tolerance 1e-9; integer custom delays are exact')
-    return ctx.finish('other', './check C17', ['CPython'],
-                      'bounded (level B): executable contracts against independent graph computations')
+    return ctx.finish('other', './check C17', ['z3', 'pyvc', 'CPython'],
+                      'P: TimingAnalysis._generate_timing_map satisfies the longest-path recurrence for any netlist '
+                      'size and any integer delay table (loop invariant over ghost netlist functions); bounded '
+                      '(level B): executable contracts against independent graph computations')
